@@ -393,6 +393,7 @@ func runC09(c *Ctx) {
 		c.Direct("the function a matcher calls under a built-in's name is not the built-in", strings.Join(c09FMDiffs, "\n"))
 	}
 	c.Count("function_map_calls", c09FMCalls)
+	c09Concurrent(c)
 }
 
 // expandIPv6 writes all eight groups of an address, optionally with leading zeros
